@@ -63,6 +63,13 @@ fn annotation(p: &RunningPolicy) -> Option<String> {
 }
 
 fn run(ctx: &mut Ctx) -> Verdict {
+    // one run in 400: the selection as the running agent makes it - a C01-style history of real agent
+    // runs (two pipelined get-config replies read by two tasks, seeded delays): what the agent then
+    // manages on the router must be exactly the selected statements
+    if ctx.tape.weighted(&[399, 1]) == 1 {
+        ctx.count("runs.agent_history");
+        return super::agent::history(ctx, super::agent::Focus::C01);
+    }
     let n = ctx.pick(if ctx.tier == Tier::Thorough { 12 } else { 6 });
     let policies: Vec<RunningPolicy> = (0..n).map(|i| gen_policy(ctx, i)).collect();
     let dup_xmlns = ctx.pick(2) == 1;
@@ -143,8 +150,8 @@ pub static C16: PropSpec = PropSpec {
     runs: |t| if t == Tier::Thorough { 30_000_000 } else { 150_000 },
     enumerated: |_| 0,
     run,
-    rule: "running configurations of 0-6 (thorough: 0-12) statements from a grammar: annotation absent / bgpfu-fltr with a parseable expression (12 shapes incl. AS-path regex, PeerAS, literal sets, XML-escaped characters) / unparseable / other text / near-miss prefixes (no space, upper case, leading garbage, padded); decoration /* c */, none, /*c*/, padded; jcmd:active absent / true / false; four attribute orders incl. unrelated attributes and Junos's duplicate xmlns:jcmd; names with XML metacharacters, quotes, non-ASCII; bodies: then reject, nothing, terms, then accept, reject plus another action. Oracle: reader's (name, expression) set == independent selection; a reply containing an annotated active statement of other content may be rejected as a whole. Non-trivial = the selection is non-empty; distinct = distinct event-log hash (the document)",
-    components: &[("junos-agent policies/fetch.rs candidate reader via the verif facade", "real"), ("router", "model: running-configuration renderer of FakeJunos")],
+    rule: "one run in 400 is a C01-style history of real agent runs (the reader fed by the session's reply routing under seeded delays; the router must end up managing exactly the selected statements). Otherwise: running configurations of 0-6 (thorough: 0-12) statements from a grammar: annotation absent / bgpfu-fltr with a parseable expression (12 shapes incl. AS-path regex, PeerAS, literal sets, XML-escaped characters) / unparseable / other text / near-miss prefixes (no space, upper case, leading garbage, padded); decoration /* c */, none, /*c*/, padded; jcmd:active absent / true / false; four attribute orders incl. unrelated attributes and Junos's duplicate xmlns:jcmd; names with XML metacharacters, quotes, non-ASCII; bodies: then reject, nothing, terms, then accept, reject plus another action. Oracle: reader's (name, expression) set == independent selection; a reply containing an annotated active statement of other content may be rejected as a whole. Non-trivial = the selection is non-empty; distinct = distinct event-log hash (the document)",
+    components: &[("junos-agent policies/fetch.rs candidate reader via the verif facade", "real"), ("router", "model: running-configuration renderer of FakeJunos"), ("whole agent against FakeJunos + FakeIrrd (A-sim)", "real, one run in 400")],
     assumptions: &["decided by generated input documents (no schedule, clock or fault involved)", "expressions are compared after rpsl parse + display"],
     watchdog_s: 30,
     stuck_is_verdict: false,
